@@ -716,6 +716,7 @@ public:
 	/// </summary>
 	/// <typeparam name="bt"></typeparam>
 	cfloat& operator++() {
+		if (iszero()) setzero(); // -0 (and any other zero encoding) steps like +0
 		if constexpr (0 == nrBlocks) {
 			return *this;
 		}
@@ -821,6 +822,7 @@ public:
 		return tmp;
 	}
 	cfloat& operator--() {
+		if (iszero()) setzero(); // -0 (and any other zero encoding) steps like +0
 		if constexpr (0 == nrBlocks) {
 			return *this;
 		}
